@@ -356,6 +356,24 @@ var catalogue = []mutation{
 		w.step.Matrix = nil
 		return true
 	}},
+	{"adjustment-named-dimension-change-next-to-anonymous", true, func(t *rapid.T, w *world, _ *auxData) bool {
+		// an adjustment that carries the anonymous dimension AND named ones: the named values are content too
+		m := w.step.Matrix
+		if m == nil {
+			return false
+		}
+		for _, a := range m.Adjustments {
+			if _, anon := a.With[""]; anon && len(a.With) > 1 {
+				for _, d := range sortedKeys(a.With) {
+					if d != "" {
+						a.With[d] += mut
+						return true
+					}
+				}
+			}
+		}
+		return false
+	}},
 	{"adjustment-with-change", true, func(t *rapid.T, w *world, _ *auxData) bool {
 		m := w.step.Matrix
 		if m == nil || len(m.Adjustments) == 0 {
@@ -637,7 +655,7 @@ var catalogue = []mutation{
 	}},
 }
 
-var rec = ev.New("TestPropMutationsBreakVerification", "command steps built as structs (S command text, step env, plugins with nested configs from the documented source forms, matrices with adjustments and extras, unsigned label/key/cache/unknown fields), pipeline env, repository URL, key kind in {EdDSA, ES512, PS512, ES256 signer}; each case signs, checks the positive control (verification env = pipeline env + unrelated variables, public half only), applies ONE mutation from a catalogue of 41 semantic mutations (must fail) or 9 benign ones (must still verify); non-trivial = semantic mutation applied to a step with >= 1 plugin or matrix or step env; distinct by hash of (step, mutation, key kind)")
+var rec = ev.New("TestPropMutationsBreakVerification", "command steps built as structs (S command text, step env, plugins with nested configs from the documented source forms, matrices with adjustments and extras, unsigned label/key/cache/unknown fields), pipeline env, repository URL, key kind in {EdDSA, ES512, PS512, ES256 signer}; each case signs, checks the positive control (verification env = pipeline env + unrelated variables, public half only), applies ONE mutation from a catalogue of 42 semantic mutations (must fail) or 9 benign ones (must still verify); non-trivial = semantic mutation applied to a step with >= 1 plugin or matrix or step env; distinct by hash of (step, mutation, key kind)")
 
 func TestPropMutationsBreakVerification(t *testing.T) {
 	ctx := context.Background()
